@@ -401,7 +401,12 @@ def property_check(ctx, case, impl, ref):
             if kind in ("relaxation", "eff_noise"):
                 if not np.array_equal(e, p):
                     bad = [(eo[a], eo[b]) for a in range(dim) for b in range(dim) if e[a, b] != p[a, b]]
-                    key = "eff-noise-3x3" if (kind == "eff_noise" and dim == 3) else f"{kind}-levels"
+                    # known finding F-12 ONLY when the operator is exactly the flip of the upper-left 2x2 block
+                    # of pulser's 3x3 ising operator (RebaseFlipBlock); any other discrepancy gets its own key
+                    flipped = np.array(ref[kind][k], dtype=complex)
+                    flipped[:2, :2] = flipped[:2, :2][::-1, ::-1].copy()
+                    is_f12 = kind == "eff_noise" and dim == 3 and ising and np.array_equal(e, flipped)
+                    key = "eff-noise-3x3" if is_f12 else f"{kind}-levels"
                     ctx.violation(
                         f"{kind} operator {k}: entries <a|L|b> differ from pulser's definition for level pairs "
                         f"{bad} (emulator order {eo}, pulser order {po})",
@@ -597,11 +602,12 @@ META = {
                  "Gaussian-integer correspondence with the real code and with pulser's own collapse operators",
     "text": ("Proved for every coefficient, every operator list and (where stated) every density matrix: the channel table "
              "(relaxation c|g><r|; dephasing c(|g><g|-|r><r|) with hyperfine guard; depolarizing c{sx,sy,sz}), their "
-             "equality with pulser's definition up to unobservable sign/identity shift (dissipator equality, dims 2/3; "
-             "dephasing only dim 2), the effective-noise basis change L = P(sqrt(rate)A)P^T with every entry keeping its "
+             "equality with pulser's definition up to unobservable sign/identity shift (dissipator equality, dims 2/3), "
+             "the effective-noise basis change L = P(sqrt(rate)A)P^T with every entry keeping its "
              "meaning (all 2x2; all 3x3 only for the row-and-column permutation variant; XY unchanged), the filter (exactly "
              "seven kinds skipped, order kept, leakage -> [], unknown -> error). Refuted on the faithful model: 3x3 "
-             "effective operators under the current 2x2 block flip (F-12), qutrit dephasing vs pulser's |r><r|. "
+             "effective operators under the current 2x2 block flip (F-12, open known finding). Dephasing is proved to be "
+             "pulser's process for dims 2 and 3 (qutrit case fixed in /repo 6810dc4, regression theorem + corpus). "
              "Validated only: the model itself (exact correspondence), sqrt coefficients (bit-exact on floats)."),
     "note": ("Trusted: Coq kernel+VM, the hand model (checked by correspondence each run), pulser's "
              "_build_local_collapse_operators as the definition. Dims 2 and 3 only."),
